@@ -33,7 +33,7 @@ SplitT == Small => LET h == Header(X["in"]) IN
             /\ (X.splitOk <=> h.ok)
             /\ (h.ok => (X.splitKind = h.kind /\ X.splitLen = h.size /\ X.splitRest = X.n - h.off - h.size))
 \* typed targets: whatever decodes re-encodes to the input (one accepted encoding per value), and only generic-valid input decodes
-TypedNames == {"uint8", "uint64", "bigint", "bool", "bytes", "arr2", "string", "u16s", "rec3", "recOpt", "raw", "fats", "recps"}
+TypedNames == {"uint8", "uint64", "bigint", "bool", "bytes", "arr2", "string", "u16s", "rec3", "recOpt", "recOptS", "raw", "fats", "recps"}
 \* (RawValue is a verbatim pass-through: it re-encodes to its input by construction and is not required to validate)
 TypedT == Judged => \A t \in TypedNames : (X.typed[t].ok => X.typed[t].same) /\ ((X.typed[t].ok /\ Small /\ t # "raw") => Expected.ok)
 \* integer kinds follow the canonical integer rules of the specification
